@@ -659,6 +659,52 @@ fn footprint_run(name: &str, rec: &[u8], block: Option<usize>, total: usize) -> 
     Ok((records, peak, peak_chunks))
 }
 
+/// Twin family: two StreamReaders alive at once, asked for records alternately.
+fn twins(ctx: &Ctx, rep: &mut Report, unit: &mut usize) {
+    let others: Vec<Vec<u8>> = vec![
+        vec![0x01, 0x62, 0xFE, 0xFD, 0x00],
+        vec![0xFE, 0xFD, 0x02, 0x63, 0xFE],
+        vec![0xFF, 0xFE, 0xFD, 0x01, 0x64, 0xFE, 0xFD],
+        vec![0x01, 0xFE],
+        {
+            let mut v = encode_record(&[0x65; 300]);
+            v.extend_from_slice(&[0xFE, 0xFD]);
+            v.extend(encode_record(&[0x66; 5]));
+            v
+        },
+    ];
+    let max_len = ctx.tier.pick(4usize, 5);
+    let mut runs = 0u64;
+    for len in 0..=max_len {
+        strings_over(&ALPHA, len, |a| {
+            let u = *unit;
+            *unit += 1;
+            if !ctx.owns(u) {
+                return;
+            }
+            for b in &others {
+                for block in [Some(0usize), Some(1), Some(2), Some(3), Some(8), Some(64)] {
+                    runs += 1;
+                    rep.evaluations += 1;
+                    match twin_reader_run(a, b, block) {
+                        Ok(n) => rep.transitions += n as u64 + 2,
+                        Err(e) if !relevant(&e) => rep.count("cases_failing_only_a_sibling_oracle", 1),
+                        Err(e) => {
+                            if twin_reader_run(a, b, block).err().as_ref() != Some(&e) {
+                                machinery_failure(&format!("twin violation did not reproduce: {}", e));
+                            }
+                            let r = format!("block={} a=[{}] b=[{}]", block_name(block), hex_full(a), hex_full(b));
+                            rep.violation(Violation { key: format!("{}:twin:{}", ctx.prop, r.replace(' ', ";")), summary: format!("two StreamReaders alive at once [{}]: {}", r, e), replay_text: format!("twin: {}\nobserved: {}\n", r, e) });
+                        }
+                    }
+                }
+            }
+        });
+    }
+    rep.count("twin_reader_runs", runs);
+    rep.note(format!("twin family: two StreamReaders alive at once and asked for records alternately: stream A = every stream over {:02X?} up to length {}, stream B from a list of {} (records, garbage, delimiters, a 300-byte record), block sizes 0, 1, 2, 3, 8, 64; each reader must return exactly the records of its own stream", ALPHA, max_len, others.len()));
+}
+
 fn run(ctx: &Ctx) -> Report {
     let mut rep = Report::new();
     owning_iovec::verif::set_quarantine(true);
@@ -678,6 +724,7 @@ fn run(ctx: &Ctx) -> Report {
             let t0 = std::time::Instant::now();
             edges(ctx, &mut rep, Mode::Reader, &mut unit);
             rep.count_max("max_stage_ms_edges", t0.elapsed().as_millis() as u64);
+            twins(ctx, &mut rep, &mut unit);
         }
         "C08" => {
             all_streams(ctx, &mut rep, Mode::Chunker, &mut unit);
@@ -687,6 +734,7 @@ fn run(ctx: &Ctx) -> Report {
         "C05" => {
             crash_histories(ctx, &mut rep, Mode::Both, &mut unit);
             edges(ctx, &mut rep, Mode::Both, &mut unit);
+            twins(ctx, &mut rep, &mut unit);
         }
         "C10" => {
             crash_histories(ctx, &mut rep, Mode::Both, &mut unit);
@@ -726,6 +774,22 @@ fn replay(ctx: &Ctx, text: &str) -> Result<String, String> {
         return match footprint_run(name, &rec, block, total) {
             Err(e) => Ok(e),
             Ok(s) => Err(format!("within bounds: (records, peak bytes, peak chunks) = {:?}", s)),
+        };
+    }
+    if let Some(t) = field(text, "twin") {
+        let bracket = |k: &str| -> Option<Vec<u8>> {
+            let at = t.find(&format!("{}=[", k))? + k.len() + 2;
+            let end = t[at..].find(']')? + at;
+            unhex(&t[at..end])
+        };
+        let block = t.split_whitespace().find_map(|x| x.strip_prefix("block=")).and_then(|b| b.parse::<usize>().ok());
+        let (Some(a), Some(b)) = (bracket("a"), bracket("b")) else {
+            machinery_failure("cannot parse twin case");
+        };
+        return match twin_reader_run(&a, &b, block) {
+            Err(e) if !relevant(&e) => Err(format!("only a sibling property's oracle fails: {}", e)),
+            Err(e) => Ok(e),
+            Ok(n) => Err(format!("{} records returned, each reader those of its own stream", n)),
         };
     }
     let Some((target, block, sched, judge, arena, stream)) = field(text, "case").and_then(parse_case) else {
